@@ -17,3 +17,10 @@ open Femio.C01
 #print axioms C01_format_insensitive_bang_fixed
 #print axioms C01_bang_counterexample_upstream
 #print axioms C01_split_egroup_counterexample_upstream
+#print axioms C01_roundtrip
+#print axioms C01_exMesh_wf
+#print axioms C01_roundtrip_statement
+#print axioms C01_format_insensitive_whitespace
+#print axioms C01_format_insensitive_split_whole
+#print axioms C01_format_insensitive
+#print axioms C01_roundtrip_any_format
